@@ -349,6 +349,28 @@ pub fn parse_digest(src: &str) -> String {
 }
 
 // gv record-relayout <seed> <count> <trace.ndjson>
+// the program with every identifier consistently renamed to a name that begins with a keyword
+fn keywordish_names(r: &mut StdRng, text: &str) -> Option<String> {
+    const POOL: [&str; 14] = ["thence", "elsewhere", "then_branch", "else_branch", "iffy", "typed", "intx", "booleans", "truest", "falsely", "elsewise", "thenceforth", "ifs", "types"];
+    let toks = tokenizer::tokenize(None, text).ok()?;
+    let mut map: std::collections::HashMap<&str, String> = Default::default();
+    let mut out = String::new();
+    let mut at = 0;
+    let start = r.gen_range(0..POOL.len());
+    for t in &toks {
+        if let crate::token::Variant::Identifier(name) = t.variant {
+            if name == "_" { continue; }
+            let k = map.len();
+            let new = map.entry(name).or_insert_with(|| { let base = POOL[(start + k) % POOL.len()]; if k < POOL.len() { base.to_string() } else { format!("{base}{k}") } }).clone();
+            out += &text[at..t.source_range.start];
+            out += &new;
+            at = t.source_range.end;
+        }
+    }
+    out += &text[at..];
+    Some(out)
+}
+
 pub fn record_relayout(args: &[String]) {
     util::quiet_panics();
     colored::control::set_override(true);
@@ -359,7 +381,11 @@ pub fn record_relayout(args: &[String]) {
     let mut out = String::new();
     let mut n = 0;
     while n < count {
-        let a = progs.choose(&mut r).unwrap();
+        let a0 = progs.choose(&mut r).unwrap();
+        // half of the programs get their identifiers renamed to names that BEGIN with a keyword (whole-word matching is part of
+        // the layout rule too: a line break before `thence` separates, a line break before `then` does not)
+        let renamed = if r.gen_bool(0.5) { keywordish_names(&mut r, a0) } else { None };
+        let a = renamed.as_ref().unwrap_or(a0);
         let Some(b) = relayout(&mut r, a) else { continue };
         let (mut oa, mut ob) = (observe(a), observe(&b));
         for o in [&mut oa, &mut ob] {
